@@ -256,6 +256,26 @@ def build_source(src, workdir):
                                        special=src.get("special", False),
                                        run_id="verif-run-%d" % src["seed"])
         n = src["n"]
+        if src.get("fl"):
+            # fluorescence measurement: fl1..flK maxima, declared channel
+            # count (may be missing or differ from K)
+            frng = random.Random(src["seed"] + 13)
+            for i in range(1, src["fl"]["channels"] + 1):
+                spec["features"]["fl%d_max" % i] = np.array(
+                    [frng.randint(0, 3000) for _ in range(n)], dtype=np.uint32)
+            fmeta = gen.base_meta(with_fl=True)["fluorescence"]
+            fmeta["channels installed"] = 3
+            fmeta["laser count"] = 2
+            fmeta["lasers installed"] = 2
+            fmeta["laser 2 lambda"] = 561.0
+            fmeta["laser 2 power"] = 20.0
+            fmeta["channel 2 name"] = "FL2"
+            fmeta["channel 3 name"] = "FL3"
+            if src["fl"].get("count") is None:
+                fmeta.pop("channel count")
+            else:
+                fmeta["channel count"] = src["fl"]["count"]
+            spec["meta"]["fluorescence"] = fmeta
         if src.get("neg_uint"):
             # a feature the writer stores as uint32 holding negative values
             # (as the int16 fl2_max of tdms measurements does)
@@ -269,6 +289,9 @@ def build_source(src, workdir):
             root.config["experiment"]["run index"] = 1
             root.config["imaging"]["pixel size"] = 0.34
             root.config["user"]["note"] = "carried"
+            if src.get("fl"):
+                for k, v in spec["meta"]["fluorescence"].items():
+                    root.config["fluorescence"][k] = v
             lrng = random.Random(src["seed"] + 7)
             truth = dict(logs=gen_logs(lrng), tables=gen_tables(lrng))
             for name, lines in truth["logs"].items():
@@ -430,7 +453,9 @@ def run_export_case(case, workdir):
         want_tables = bool(case.get("tables", False))
         nlogs_src = len(list(ds.logs.keys()))
         ntabs_src = len(list(ds.tables.keys()))
-        coq = "(%s, (%d, %s), (%d, %d, %d), (%s, %s, %d, %s, %s))" % (
+        ch_src = ds.config["fluorescence"].get("channel count") \
+            if "fluorescence" in ds.config else None
+        coq = "(%s, (%d, %s), (%d, %d, %d), (%s, %s, %d, %s, %s), (%s, %s))" % (
             coq, fmode != "default",
             zl([names[f] for f in ds.features_innate if f in names]),
             want_logs, want_tables, basins,
@@ -438,7 +463,10 @@ def run_export_case(case, workdir):
             zl([stok(mid)] if rid_src is None and mid is not None
                          else []),
             stok(sample_src) if sample_src is not None else 0,
-            zl(range(nlogs_src)), zl(range(ntabs_src)))
+            zl(range(nlogs_src)), zl(range(ntabs_src)),
+            zl([int(ch_src)] if ch_src is not None else []),
+            zl([names[f] for f in ("fl1_max", "fl2_max", "fl3_max")
+                if f in names]))
         res["coq"] = coq
         # --- expected selection (property) ---------------------------------
         idx = np.flatnonzero(mask) if filtered else np.arange(n)
@@ -553,10 +581,16 @@ def run_export_case(case, workdir):
                              and h5["logs"][k].size]))
             flat.append(len([k for k in h5.get("tables", {})
                              if k.startswith("src_")]))
+            ch_out = h5.attrs.get("fluorescence:channel count")
+            flat += [0] if ch_out is None else [1, int(ch_out)]
         res["flat"] = flat
         exp_count = len(exp_idx) if uniq else (
             int(mask.sum()) if filtered else src_count)
         count_defined = not (skip and unequal)
+        if not count_defined and basins:
+            # features of different lengths plus a basin map feature: which
+            # length rectify_metadata picks is not part of the model
+            res["coq"] = None
         if count_defined and flat[1] != exp_count:
             fails.append("event count attribute is %d, %d events were "
                          "selected" % (flat[1], exp_count))
@@ -630,6 +664,34 @@ def run_export_case(case, workdir):
         writer.CHUNK_SIZE_BYTES = old_cfg
 
 
+RECT_RULES = {("imaging", "roi size x"), ("imaging", "roi size y"),
+              ("fluorescence", "samples per event"),
+              ("fluorescence", "channel count")}
+
+
+def rectified_value(ds, od, sec, k, src):
+    """What the property allows for the keys rectify_metadata touches:
+    carried over from the source, except where the writer legitimately
+    corrects them from the stored data (image shape, trace length) or adds
+    a missing channel count."""
+    stored = set(od.features_innate) if len(od) else set()
+    if k == "channel count":
+        if src is not None:
+            return src
+        nfl = sum(("fl%d_max" % i) in stored for i in (1, 2, 3))
+        return nfl or None
+    if k == "samples per event":
+        if "trace" in stored:
+            tr = ds["trace"]
+            return int(len(tr[sorted(tr.keys())[0]][0]))
+        return src
+    for f in ("image", "mask"):
+        if f in stored:
+            shp = ds[f][0].shape
+            return int(shp[1] if k == "roi size x" else shp[0])
+    return src
+
+
 def meta_diff(ds, od, filtered):
     import numpy as np
     from dclab import definitions as dfn
@@ -640,6 +702,13 @@ def meta_diff(ds, od, filtered):
         b = dict(od.config[sec]) if sec in od.config else {}
         for k in sorted(set(a) | set(b)):
             if (sec, k) in RECTIFIED:
+                if (sec, k) in RECT_RULES:
+                    want = rectified_value(ds, od, sec, k, a.get(k))
+                    got = b.get(k)
+                    if want != got:
+                        return ("metadata [%s] %s is %r in the exported "
+                                "file, the source has %r (expected %r)" % (
+                                    sec, k, got, a.get(k), want))
                 continue
             if k not in a or k not in b:
                 return "metadata [%s] %s not carried over (%r vs %r)" % (
@@ -1089,6 +1158,12 @@ def gen_export_case(rng, thorough=False):
         src = dict(type=t, n=n, kinds=kinds, seed=rng.randint(0, 10 ** 6),
                    special=rng.random() < 0.3,
                    temp=(t != "basin" and rng.random() < 0.4))
+        if t != "basin" and rng.random() < 0.35:
+            # fluorescence section; the declared channel count may be
+            # missing or differ from the number of fl*_max features
+            nch = rng.choice([1, 2, 3, 3])
+            src["fl"] = dict(channels=nch,
+                             count=rng.choice([None, nch, 3, 3, 2]))
         nn = n
         if t.startswith("hier-"):
             src["parent_drop"] = sorted(rng.sample(range(n),
@@ -1098,6 +1173,15 @@ def gen_export_case(rng, thorough=False):
         avail = ["index"] + gen_feature_names(src)
         k = rng.randint(1, min(6, len(avail)))
         feats = rng.sample(avail, k)
+        if src.get("fl"):
+            flf = ["fl%d_max" % i for i in range(1, src["fl"]["channels"] + 1)]
+            r3 = rng.random()
+            if r3 < 0.65:
+                # a subset of the fluorescence channels
+                feats = [f for f in feats if f not in flf] + rng.sample(
+                    flf, rng.randint(1, max(1, len(flf) - 1)))
+            elif r3 < 0.8:
+                feats = [f for f in feats if f not in flf] or ["index"]
         if rng.random() < 0.1:
             feats = [f for f in feats if f == "trace"] or ["trace"]
             feats += [f for f in ("userdef1", "userdef2") if f in avail][:1]
@@ -1148,7 +1232,9 @@ def gen_feature_names(src):
     rng = random.Random(src["seed"])
     spec = gen.random_dataset_spec(rng, src["n"], kinds=tuple(src["kinds"]),
                                    special=src.get("special", False))
-    names = sorted(spec["features"])
+    names = sorted(set(spec["features"]) | set(
+        "fl%d_max" % i for i in range(1, src.get("fl", {}).get("channels", 0)
+                                      + 1)))
     if src.get("temp"):
         names += [NONSCALAR_TEMP, SCALAR_TEMP]
     return names
@@ -1297,6 +1383,11 @@ def run(run):
                     "all-pass" if allp else
                     ("filter" if c["filtered"] else "unfiltered"),
                     ":skip" if c["skip_checks"] else ""))
+            if c["src"].get("fl"):
+                nfl = len([f for f in set(c["features"])
+                           if f.startswith("fl") and f.endswith("_max")])
+                run.count("fl:channels=%d:declared=%s:exported=%d" % (
+                    c["src"]["fl"]["channels"], c["src"]["fl"]["count"], nfl))
             run.count("fmode:%s" % c.get("fmode", "list"))
             run.count("basins:%d" % bool(c.get("basins")))
         elif c["kind"] == "sff":
